@@ -9,7 +9,9 @@ import YaegiVerif.Generated.C09
      K      number: the cancellation happens when operation K (counted over all goroutines, under the
             newest-first policy) has passed its guard and is about to execute; `quiet`: when nothing moves any more
      ENTRY  (r OP…) an entry of Execute's run list executed on the root frame, (f OP…) in a new frame
-     OP     s | t | m | (c SITE OP…) | (g SITE OP…) | (b KIND CANC)      SITE = c | w | l | e (closure of an earlier evaluation)    KIND = recv | recv2 | send | range | select
+     OP     s | t | m | (c SITE OP…) | (g SITE OP…) | (b KIND CANC)      KIND = recv | recv2 | send | range | select
+            SITE = c | w | l | e (closure of an earlier evaluation) | h (a wrapper entered by native code that calls back late:
+            when such a call is in flight after the cancellation it is executed only when nothing else can move)
    outcome = n<ops before the cancellation>;<ret>;<per goroutine that ever executed an operation, in creation order>
              per goroutine: i<in-flight operations 0/1>f<fresh operations>t<host calls after the cancellation><E|S|R>
              (E exited, S still blocked, R still wants to run)
@@ -28,7 +30,8 @@ def parseKind : String → Option BlkKind
   | "range" => some .range | "select" => some .select | _ => none
 
 def parseSite : String → Option Site
-  | "c" => some .call | "w" => some .wrapper | "l" => some .closure | "e" => some .earlier | _ => none
+  | "c" => some .call | "w" => some .wrapper | "l" => some .closure | "e" => some .earlier | "h" => some .wrapperLate
+  | _ => none
 
 partial def parseOps : List Sexp → Option Prog
   | [] => some .done
@@ -57,23 +60,39 @@ def parseEntry : Sexp → Option Entry
   | .list (.atom "f" :: ops) => (parseOps ops).map (fun p => { root := false, prog := p })
   | _ => none
 
-def newestAllowed (gs : List G) (inflight : List Nat) (freshLeft : Nat) : Option Nat :=
+/-- the operation the goroutine has passed its guard for is a call made by native code that calls back late -/
+def heldArmed (g : G) : Bool :=
+  g.armed && (match g.stack with
+    | fr :: _ => (match fr.pc with | .call .wrapperLate _ _ => true | _ => false)
+    | [] => false)
+
+/-- the newest goroutine allowed to be granted its operation (a goroutine whose late native callback has been granted
+    already is parked inside the host function) -/
+def newestAllowed (gs : List G) (inflight : List Nat) (freshLeft : Nat) (granted : List Nat) : Option Nat :=
   let rec go (l : List G) (i : Nat) (best : Option Nat) : Option Nat :=
     match l with
     | [] => best
-    | g :: rest => go rest (i + 1) (if g.armed && (inflight.contains i || freshLeft > 0) then some i else best)
+    | g :: rest =>
+      go rest (i + 1) (if g.armed && !granted.contains i && (inflight.contains i || freshLeft > 0) then some i else best)
   go gs 0 none
 
-/-- after the cancellation: in-flight operations always execute, fresh ones while the budget lasts -/
-def post (F : RunIdFacts) (fs : Nat) (newFirst : Bool) : Nat → St → List Nat → Nat → St
-  | 0, σ, _, _ => settleAll F σ fs newFirst
-  | fuel + 1, σ, inflight, freshLeft =>
+/-- after the cancellation: in-flight operations always execute, fresh ones while the budget lasts. An operation that
+    that is in flight and is a late native callback (`h.Hold`) is GRANTED like any other but the host function parks
+    it: it is executed, newest first, only when nothing else can be granted (a fresh one calls back at once). -/
+def post (F : RunIdFacts) (fs : Nat) (newFirst : Bool) : Nat → St → List Nat → Nat → List Nat → St
+  | 0, σ, _, _, _ => settleAll F σ fs newFirst
+  | fuel + 1, σ, inflight, freshLeft, granted =>
     let σ1 := settleAll F σ fs newFirst
-    match newestAllowed σ1.gs inflight freshLeft with
-    | none => σ1
+    match newestAllowed σ1.gs inflight freshLeft granted with
     | some i =>
-      if inflight.contains i then post F fs newFirst fuel (stepC F σ1 (.run i)) (inflight.erase i) freshLeft
-      else post F fs newFirst fuel (stepC F σ1 (.run i)) inflight (freshLeft - 1)
+      let held := inflight.contains i && (match σ1.gs[i]? with | some g => heldArmed g | none => false)
+      let freshLeft' := if inflight.contains i then freshLeft else freshLeft - 1
+      if held then post F fs newFirst fuel σ1 (inflight.erase i) freshLeft' (i :: granted)
+      else post F fs newFirst fuel (stepC F σ1 (.run i)) (inflight.erase i) freshLeft' granted
+    | none =>
+      match granted.foldl (fun (b : Option Nat) j => match b with | some k => some (max k j) | none => some j) none with
+      | some j => post F fs newFirst fuel (stepC F σ1 (.run j)) inflight freshLeft (granted.erase j)
+      | none => σ1
 
 def entriesSize (es : List Entry) : Nat := es.foldl (fun n e => n + e.prog.size + 1) 0
 
@@ -114,7 +133,7 @@ def outcome (F : RunIdFacts) (budget : Nat) (k : Option Nat) (entries : List Ent
   else
     let inflight := (List.range σ1.gs.length).filter (fun i => armedOf σ1 i)
     let σ2 := stepC F σ1 .stop
-    let σ3 := post F fs newFirst (inflight.length + budget + 1) σ2 inflight budget
+    let σ3 := post F fs newFirst (2 * (inflight.length + budget) + 2) σ2 inflight budget []
     let ret := match σ3.ret with | some .ctxErr => "ctx" | some .value => "val" | none => "none"
     let per := (List.range σ3.gs.length).filterMap (fun i =>
       match σ3.gs[i]? with
